@@ -209,11 +209,23 @@ func (e *Engine) Paths(fn *ssa.Function, ctx *Ctx, mode Mode) []*Alt {
 			continue
 		}
 		var states []state
+		// the operand the return was split on (per state), so that each
+		// alternative reports the value of its own case, not the merged phi
+		var splitVal []ssa.Value
+		splitIdx := -1
+		note := func(v ssa.Value, n int) {
+			for i := 0; i < n; i++ {
+				splitVal = append(splitVal, v)
+			}
+		}
 		switch {
 		case mode == ModeErr && hasErr:
 			last := ret.Results[len(ret.Results)-1]
+			splitIdx = len(ret.Results) - 1
 			for _, c := range e.phiCases(g, b.Index, last, []state{{nil, ctx}}, 0, 0) {
-				states = append(states, e.applyErrOperand(c.v, c.at, g, c.states)...)
+				sub := e.applyErrOperand(c.v, c.at, g, c.states)
+				note(c.v, len(sub))
+				states = append(states, sub...)
 			}
 		case (mode == ModeTrue || mode == ModeFalse) && len(ret.Results) >= 1 && isBoolType(ret.Results[len(ret.Results)-1].Type()):
 			// a predicate, or a (value, found) pair tested on its flag
@@ -240,9 +252,12 @@ func (e *Engine) Paths(fn *ssa.Function, ctx *Ctx, mode Mode) []*Alt {
 		default:
 			states = e.collect(g, b.Index, []state{{nil, ctx}}, 0)
 		}
-		for _, st := range states {
-			alt0 := &Alt{Gates: expandFiniteLoops(st.gates), Ret: ret, Ctx: st.ctx}
-			for _, r := range ret.Results {
+		for si, st := range states {
+			alt0 := &Alt{Gates: splitConj(expandFiniteLoops(st.gates)), Ret: ret, Ctx: st.ctx}
+			for ri, r := range ret.Results {
+				if ri == splitIdx && si < len(splitVal) && splitVal[si] != nil {
+					r = splitVal[si]
+				}
 				alt0.Results = append(alt0.Results, e.Eval(r, st.ctx))
 			}
 			unrolled := unrollFiniteExits(alt0)
@@ -250,7 +265,7 @@ func (e *Engine) Paths(fn *ssa.Function, ctx *Ctx, mode Mode) []*Alt {
 				if len(unrolled) > 1 || alt != alt0 {
 					// an unrolled exit whose error result is a definite failure, or
 					// whose gates are contradictory, is not a success alternative
-					if mode == ModeErr && hasErr && len(alt.Results) > 0 && termIsNonNilError(alt.Results[len(alt.Results)-1]) {
+					if mode == ModeErr && hasErr && len(alt.Results) > 0 && e.termIsNonNilError(alt.Results[len(alt.Results)-1]) {
 						continue
 					}
 					if hasFalseGate(alt.Gates) {
@@ -297,6 +312,36 @@ func (e *Engine) applyErrOperand(v ssa.Value, b *ssa.BasicBlock, g *Graph, state
 	}
 	if e.syntacticNonNil(v, 0) {
 		return nil
+	}
+	// the path of this case already carries the gate "v != nil" (the phi edge
+	// left a test of v on its non-nil side): the returned error is a failure
+	{
+		var keep []state
+		for _, st := range states {
+			t := StripConv(e.Eval(v, st.ctx))
+			nonNil := false
+			for _, gt := range st.gates {
+				if gt.Loop != "" || gt.Pred == nil {
+					continue
+				}
+				p := StripConv(gt.Pred)
+				if p.Op == OpBin && p.Name == "!=" && len(p.Args) == 2 {
+					a, b2 := StripConv(p.Args[0]), StripConv(p.Args[1])
+					if (a.IsConst("nil") && Eq(b2, t)) || (b2.IsConst("nil") && Eq(a, t)) {
+						nonNil = true
+					}
+				}
+			}
+			if !nonNil {
+				keep = append(keep, st)
+			}
+		}
+		if len(keep) != len(states) {
+			states = keep
+			if len(states) == 0 {
+				return nil
+			}
+		}
 	}
 	// err known non-nil / nil from a dominating test of the same value
 	for _, d := range g.Dominators(b.Index) {
@@ -946,7 +991,7 @@ func (e *Engine) gatesAtUncached(fn *ssa.Function, ctx *Ctx, block int) []*Alt {
 	g := e.GraphOf(fn, ctx)
 	var alts []*Alt
 	for _, st := range e.collect(g, block, []state{{nil, ctx}}, 0) {
-		alts = append(alts, &Alt{Gates: expandFiniteLoops(st.gates), Ctx: st.ctx})
+		alts = append(alts, &Alt{Gates: splitConj(expandFiniteLoops(st.gates)), Ctx: st.ctx})
 	}
 	return alts
 }
@@ -1038,10 +1083,35 @@ func hasFalseGate(gs []*Gate) bool {
 	return false
 }
 
+// splitConj turns a plain gate a && b into the two gates a and b.
+func splitConj(gates []*Gate) []*Gate {
+	var out []*Gate
+	var add func(g *Gate)
+	add = func(g *Gate) {
+		if g.Pred != nil && g.Loop == "" {
+			if p := StripConv(g.Pred); p.Op == OpBin && p.Name == "&&" && len(p.Args) == 2 {
+				for _, a := range p.Args {
+					ng := *g
+					ng.Pred = a
+					add(&ng)
+				}
+				return
+			}
+		}
+		out = append(out, g)
+	}
+	for _, g := range gates {
+		add(g)
+	}
+	return out
+}
+
 // termIsNonNilError: the term of an error result that is certainly not nil.
-func termIsNonNilError(t *Term) bool {
+func (e *Engine) termIsNonNilError(t *Term) bool {
 	t = StripConv(t)
 	switch t.Op {
+	case OpRes:
+		return false
 	case OpGlobal:
 		n := t.Name
 		if i := strings.LastIndex(n, "."); i >= 0 {
@@ -1049,12 +1119,31 @@ func termIsNonNilError(t *Term) bool {
 		}
 		return strings.HasPrefix(n, "Err")
 	case OpCall:
+		if strings.HasPrefix(t.Name, "dynamic#") && len(t.Args) > 0 {
+			// call of a known function literal all of whose returns are definite errors
+			fv := StripConv(t.Args[0])
+			if fv.Op == OpClosure || fv.Op == OpFunc {
+				if fn := e.funcByShort(fv.Name); fn != nil && fn.Blocks != nil {
+					n := 0
+					for _, b := range fn.Blocks {
+						if ret, ok := b.Instrs[len(b.Instrs)-1].(*ssa.Return); ok {
+							n++
+							if !e.RetIsFail(ret) {
+								return false
+							}
+						}
+					}
+					return n > 0
+				}
+			}
+			return false
+		}
 		return t.Name == "fmt.Errorf" || t.Name == "errors.New" || strings.HasPrefix(t.Name, "fmt.Errorf#") || strings.HasPrefix(t.Name, "errors.New#")
 	case OpNew, OpStruct, OpAddr:
 		return true
 	case OpPhi:
 		for _, a := range t.Args {
-			if !termIsNonNilError(a) {
+			if !e.termIsNonNilError(a) {
 				return false
 			}
 		}
